@@ -171,24 +171,26 @@ Section HeapSim.
   Qed.
 
   Lemma h_slice_sim : forall h ps i vs h' p,
-    inv h -> sim h ps -> nth_error ps i = Some p -> h_slice cond h i vs = Some h' ->
-    exists q, slice cond p vs = Some q /\ inv h' /\ sim h' (upd ps i q).
+    inv h -> sim h ps -> nth_error ps i = Some p -> h_slice cond vars h i vs = Some h' ->
+    exists q, slice cond vars p vs = Some q /\ inv h' /\ sim h' (upd ps i q).
   Proof.
     intros h ps i vs h' p Hinv [Hlen Hsim] Hp H. unfold h_slice in H.
     destruct (nth_error (o_paths h) i) as [hp|] eqn:Hhp; [|discriminate].
     pose proof Hinv as (Hc & Hr & Hv & Hrefs & Hvinv).
-    destruct (Hrefs i hp Hhp) as (Rc & Rr & Rv). rewrite Rr, Rv in H.
+    destruct (Hrefs i hp Hhp) as (Rc & Rr & Rv). rewrite Rc, Rv in H.
     pose proof (Hsim i hp p Hhp Hp) as (Sc & Sp & Sr & Sv & Ss).
     assert (Hi : (i < List.length (o_paths h))%nat) by (apply (nth_error_lt _ _ _ Hhp)).
     unfold slice. rewrite <- Ss.
     destruct (hp_sliced hp) eqn:Hsl; [discriminate|].
-    destruct (d_collect (nth i (o_v2c h) []) (o_sets h) vs []) as [[cs d1] S1] eqn:Hcol.
+    rewrite Sc in H.
+    destruct (d_slice_loop cond vars (slice_fuel cond vars (conditions p) vs) (conditions p)
+                           (nth i (o_v2c h) []) (o_sets h) [] [] (rev vs)) as [[[sl d1] S1]|] eqn:Hloop; [|discriminate].
     inversion H; subst h'; clear H.
     destruct Hvinv as [Hwf Hdj].
-    destruct (collect_spec _ _ _ _ _ _ _ (Hwf i) Hcol) as [Hs1 He1].
+    destruct (slice_loop_spec _ _ _ _ _ _ _ _ _ _ _ _ (Hwf i) Hloop) as [Hs1 He1].
     assert (Hiv : (i < List.length (o_v2c h))%nat) by lia.
     destruct (vinv_upd (o_v2c h) (o_sets h) i d1 S1 (conj Hwf Hdj) Hiv Hs1) as [Hvinv' Hframe].
-    unfold get_related. rewrite <- Sv. rewrite He1. rewrite <- Sr.
+    rewrite <- Sv. rewrite He1.
     eexists. split; [reflexivity|]. split.
     - unfold inv. simpl. rewrite !upd_length.
       split; [exact Hc|]. split; [exact Hr|]. split; [exact Hv|]. split; [|exact Hvinv'].
@@ -437,7 +439,7 @@ Section Lineage.
     - destruct (branch cond p c) as [q|] eqn:Hb; [|discriminate]. inversion H; subst ps'.
       apply (linv_new _ _ _ _ p _ _ Hl Hp). exact Hb.
     - inversion H; subst ps'. apply (linv_upd _ _ _ _ p _ _ Hl Hp). reflexivity.
-    - destruct (slice cond p vs) as [q|] eqn:Hb; [|discriminate]. inversion H; subst ps'.
+    - destruct (slice cond vars p vs) as [q|] eqn:Hb; [|discriminate]. inversion H; subst ps'.
       apply (linv_upd _ _ _ _ p _ _ Hl Hp). exact Hb.
     - inversion H; subst ps'. apply (linv_new _ _ _ _ p _ _ Hl Hp). reflexivity.
   Qed.
